@@ -52,6 +52,14 @@ def c16a(tree, ob):
         if good is None:
             ob.violate(SEC, fv.qual, '{}(...) without tgt_blk.setfieldval(\'btsd\', <ciphertext>)'.format(kind), 'the ciphertext of the {} is not written into the target block'.format(kind), c)
             continue
+        # the encoded data wins only while no parsed payload is attached: the bundle's build step regenerates the data of a
+        # block that has one (an administrative record), which would put the plaintext back on the wire
+        drops = {fv.node(x) for x in calls_in(fv.func) if pm('tgt_blk.remove_payload()', x) is not None}
+        if drops and fv.cfg.must_pass(fv.node(good), fv.node(app), drops, include_exc=False)[0]:
+            ob.site(SEC, good, '{}: the parsed payload of the target is dropped with the plaintext'.format(kind))
+        else:
+            ob.violate(SEC, fv.qual, src(good)[:60] + ' (parsed payload kept)', 'the ciphertext is stored as block data but a parsed payload stays attached: for a payload block holding an administrative '
+                       'record the build step regenerates the data from it, and the record leaves the node in the clear next to the BCB', good)
         # on every path from this construction to the append the replacement happens
         ok, wit = fv.cfg.must_pass(fv.node(stmt), fv.node(app), {fv.node(good)}, include_exc=False)
         blanks = [n for n in walk_local(fv.func) if isinstance(n, ast.Assign) and pm('$m[2]', n.targets[0]) is not None and isinstance(n.value, ast.Constant) and n.value.value is None
